@@ -928,6 +928,7 @@ func run(c *vh.Ctx) {
 	}
 	// 6. fingerprinted captures of the library's own output, 7. JSON-imported specs
 	runFingerprinted(c, raws)
+	runFingerprintMatrix(c, raws)
 	runJSON(c)
 	runQUIC(c)
 	runGrease(c)
